@@ -1,7 +1,7 @@
 (* C13 — concurrency safety.  Property theorems only.  gen/GenSkel.v is the lock/access
    skeleton of crlrepository.go, crlrevocationchecker.go, ocsprevocationchecker.go and
    multischemescrlloader.go, regenerated from the Go source by tools/lockskel on every run. *)
-From Verif Require Import Base LockSkel LockSkelProofs.
+From Verif Require Import Base LockSkel LockSkelProofs LockProgress.
 From Verif.gen Require GenSkel.
 
 (* the checker accepts the skeleton of the current source: every access to Entry.Loaded /
@@ -34,6 +34,21 @@ Proof.
   symmetry. exact C13_skeleton_accepted.
 Qed.
 Print Assumptions C13_no_race_no_relock.
+
+(* never deadlock: from any initial system of finitely many threads (all threads from n on are idle), in EVERY
+   reachable state of every interleaving, as long as some thread has not finished some thread can take a step.
+   (Mechanised wait-for argument: a blocked thread waits for a lock whose holder has not finished and, if blocked
+   itself, waits for a lock of strictly higher rank; ranks are bounded.)  Lock-level statement: blocking inside
+   the Go runtime, the network or LevelDB is outside the skeleton. *)
+Theorem C13_deadlock_free : forall s0 s n,
+  initial GenSkel.program GenSkel.entry_points s0 -> (forall j, n <= j -> t_k (s0 j) = []) -> reach s0 s ->
+  (exists i, t_k (s i) <> []) -> exists s', sstep s s'.
+Proof.
+  intros s0 s n. apply skel_ok_deadlock_free. unfold skel_ok.
+  replace (skel_report GenSkel.program GenSkel.entry_points) with (@nil (string * violation)); [reflexivity|].
+  symmetry. exact C13_skeleton_accepted.
+Qed.
+Print Assumptions C13_deadlock_free.
 
 (* the checker itself, for any program: what acceptance guarantees *)
 Theorem C13_checker_sound : forall P entries s0 s,
